@@ -959,6 +959,41 @@ def check_C01(ctx):
     premise_entry(ctx, "E", sizes=((FIVE, 5),))
     # validated ranking of five distinct real cards takes the ranking edge: is_valid is true there (V, short form)
     ctx.guard("V.five", premise_unique, ctx, FIVE, 5, "V.are_unique")
+    # ... and the entry points themselves return: their own panic sites (outside the ranking proper, which the
+    # C01.panic-site rule covers) hold for five real cards
+    ctx.guard("C01.entry-no-panic", entry_totality, ctx, "C01.entry-no-panic", ((FIVE, 5),), fac)
+
+
+def entry_totality(ctx, rule, sizes, fac):
+    """Panic sites of the ranking entry points (wrappers around hand_rank_value_and_hand) on hands of real cards."""
+    from .base import decide_site
+    rep, pdb = ctx.rep, ctx.pdb
+    for path, n in sizes:
+        k_and, _ = ctx.method(path, "hand_rank_value_and_hand", HR)
+        k_valid, _ = ctx.method(path, "is_valid", HV)
+        entries = [(ctx.method(path, m_, HR), m_) for m_ in ("hand_rank_value", "hand_rank_value_validated", "hand_rank", "hand_rank_validated")]
+        if path == FIVE:
+            entries.append((("evaluate::five_cards", None), "evaluate::five_cards"))
+        for (key, sty), label in entries:
+            arg = [("r", ctx.hand(path, n))] if key != "evaluate::five_cards" else [("v", agg(("array",), slot_atoms(5)))]
+            sm_op = ctx.summ(key, arg, sty, opaque={k_and, k_valid})
+            sm_in = None
+            cnt = 0
+            for o in sm_op.obligations:
+                if o.cond[0] == "c" and o.cond[1]:
+                    continue
+                cnt += 1
+                from .base import earlier_asserted
+                okk = decide_site(ctx, o, assume=earlier_asserted(sm_op.obligations, o))[0] is True
+                if not okk:
+                    if sm_in is None:
+                        sm_in = ctx.summ(key, arg, sty, opaque={k_and})
+                    twin = next((q for q in sm_in.obligations if (q.fn, q.kind, q.line) == (o.fn, o.kind, o.line)), None)
+                    if twin is not None:
+                        okk = slotwise_discharge(ctx, twin, fac, masks_upto(5), valid_only=True)
+                rep.ob(rule, "%s::%s %s %s L%s" % (short(path), label, short(o.fn), o.kind, o.line), okk,
+                       "panic site (%s, line %s) in %s is not shown safe for hands of real cards" % (o.kind, o.line, short(o.fn)), "%s line %s" % (pdb.where(o.fn), o.line))
+            rep.ob(rule, "%s::%s" % (short(path), label), True, nontrivial=False)
 
 
 def discharge_residual_obligations(ctx, fac, rule, max_ranks, PR, extra_env=None):
@@ -1020,6 +1055,79 @@ def discharge_residual_obligations(ctx, fac, rule, max_ranks, PR, extra_env=None
         rep.ob(rule, label, bad is None, "%s in %s can fail for rank mask %#x, flush=%s, prime product %s" % (o.kind, short(o.fn), bad[0] if bad else 0, bad[1] if bad else 0, bad[2] if bad else 0), "%s line %s" % (pdb.where(o.fn), o.line))
         n += 1
     return n
+
+
+def slotwise_discharge(ctx, o, fac, masks, valid_only=False):
+    """A panic site on card-or-blank slots that is not decided for arbitrary words: (1) if, rewritten over the
+    recognised summaries, it only depends on the rank mask / flush flag, it is folded over every rank mask of up to
+    five cards; (2) if it is a conjunction of conditions on one or two slots each, every conjunct is folded over the 53
+    (valid_only: 52) words per slot, under those conjuncts of the path that speak about the same slots only.
+    Path conjuncts that cannot be used are dropped, which only weakens the assumption.  -> True when discharged."""
+    from .base import flat_and
+    pdb = ctx.pdb
+    words = ctx.words53()[1:] if valid_only else ctx.words53()
+    pcs = []
+    for c in o.pc:
+        flat_and(c, pcs)
+    # (1)
+    if fac:
+        fz = fac["fz"]
+        try:
+            c2 = fz.rewrite(o.cond)
+            if not [a for a in atoms_of(c2) if a.startswith("s")] and not any(x[0] == "call" for x in walk(c2)):
+                pc2 = []
+                for c in pcs:
+                    r_ = fz.rewrite(c)
+                    if not [a for a in atoms_of(r_) if a.startswith("s")] and not any(x[0] == "call" for x in walk(r_)):
+                        pc2.append(r_)
+                unames = sorted(a for a in set(atoms_of(c2)) | {a for c in pc2 for a in atoms_of(c)} if a.startswith("U"))
+                if len(unames) <= 3 and not ({"P"} & set(atoms_of(c2))):
+                    ok = True
+                    for m in masks:
+                        for fl in (0, 1):
+                            for bits in __import__("itertools").product((0, 1), repeat=len(unames)):
+                                env = {"M": m, "F": fl, "P": 0}
+                                env.update(dict(zip(unames, bits)))
+                                if all(cval(evaluate(pdb, c, env)) for c in pc2) and not cval(evaluate(pdb, c2, env)):
+                                    ok = False
+                    ctx.rep.evals(len(masks) * 2)
+                    if ok:
+                        return True
+        except (Uncertified, IndexError):
+            pass
+    # (2)  (a disjunction holds as soon as one disjunct does under the same path)
+    from .base import flat_or_
+    djs = flat_or_(o.cond, [])
+    if len(djs) > 1:
+        class _O:
+            pass
+        for d in djs:
+            q = _O()
+            q.cond, q.pc, q.fn, q.kind, q.line = d, o.pc, o.fn, o.kind, o.line
+            if slotwise_discharge(ctx, q, fac, masks, valid_only):
+                return True
+        return False
+    conj = flat_and(o.cond, [])
+    okall = True
+    from itertools import product as _pr
+    for cj in conj:
+        deps = sorted({a for a in atoms_of(cj)})
+        if not deps or not all(a.startswith("s") for a in deps) or len(deps) > 2 or any(x[0] == "call" for x in walk(cj)):
+            return False
+        rel = [c for c in pcs if set(atoms_of(c)) and set(atoms_of(c)) <= set(deps) and not any(x[0] == "call" for x in walk(c))]
+        for combo in _pr(words, repeat=len(deps)):
+            env = dict(zip(deps, combo))
+            try:
+                if all(cval(evaluate(pdb, c, env)) for c in rel) and not cval(evaluate(pdb, cj, env)):
+                    okall = False
+                    break
+            except IndexError:
+                okall = False
+                break
+        ctx.rep.evals(len(words) ** len(deps))
+        if not okall:
+            return False
+    return okall
 
 
 # -------------------------------------------------------------------------------------------------
@@ -1984,8 +2092,49 @@ def check_bestof(ctx, rule, need, table="complete", sizes=((SIX, 6), (SEVEN, 7))
             facts[path] = bestof_loop(ctx, path, n, rule, need)
             if facts[path] is not None and ("keeps-smallest-nonzero" in need or "witness-follows-value" in need):
                 bestof_end_to_end(ctx, path, n, rule, need)
+            bestof_totality(ctx, path, n, rule)
         ctx.guard(rule + "." + short(path), one)
     return facts
+
+
+def bestof_totality(ctx, path, n, rule):
+    """The six/seven ranking returns at all: its own panic sites (the five-card ranking is cited, with values in
+    0..=7462 as the tables guarantee) hold for every hand of real cards."""
+    from .base import decide_site, describe_env
+    rep, pdb = ctx.rep, ctx.pdb
+    key, sty = ctx.method(path, "hand_rank_value_and_hand", HR)
+    k5v, _ = ctx.method(FIVE, "hand_rank_value", HR)
+    sm = ctx.summ(key, [("r", ctx.hand(path, n))], sty, contracts={FIP: fip_contract}, opaque={k5v})
+    cnt = 0
+    for o in sm.obligations:
+        if o.cond[0] == "c" and o.cond[1]:
+            continue
+        cnt += 1
+        from .base import earlier_asserted
+        dec, how = decide_site(ctx, o, call_ranges={"fn:" + k5v: (0, 7462)}, assume=earlier_asserted(sm.obligations, o))
+        label = "%s %s %s L%s" % (short(path), short(o.fn), o.kind, o.line)
+        where = "%s line %s" % (pdb.where(o.fn), o.line)
+        if dec is True:
+            rep.ob(rule + ".no-panic", label, True)
+        elif dec is False and not any(k_.startswith("s") for k_ in how):
+            # a failing assignment of candidate values only (every value in 1..=7462 is some hand's value, 0 is the
+            # value of a candidate with a blank or a repeated card)
+            rep.ob(rule + ".no-panic", label, False, "panic site (%s, line %s) in %s is reached and fails when the ranked candidates have values %s" % (o.kind, o.line, short(o.fn), describe_env(how)), where)
+        elif dec is False and slot_env_is_cards(ctx, how):
+            rep.ob(rule + ".no-panic", label, False, "panic site (%s, line %s) in %s is reached and fails for %s" % (o.kind, o.line, short(o.fn), describe_env(how)), where)
+        else:
+            ok2 = slotwise_discharge(ctx, o, None, masks_upto(5), valid_only=True)
+            if ok2:
+                rep.ob(rule + ".no-panic", label, True)
+            else:
+                rep.uncertified(rule + ".no-panic", "panic site %s could not be shown safe for hands of real cards" % label, where)
+    rep.ob(rule + ".no-panic", "%s: %d sites" % (short(path), cnt), True, nontrivial=False)
+
+
+def slot_env_is_cards(ctx, env):
+    cards = set(ctx.words53()[1:])
+    vals = [v for k_, v in env.items() if k_.startswith("s") and not callable(v)]
+    return bool(vals) and all(v in cards for v in vals) and len(set(vals)) == len(vals)
 
 
 def bestof_end_to_end(ctx, path, n, rule, need):
@@ -2337,6 +2486,8 @@ def check_C05(ctx):
                     rep.ob("C05.candidate-slots", short(path), cs is not None and all(is_slot_copy(ctx, c, slots) for c in cs), "a ranked candidate contains something other than copies of the receiver's slots", pdb.where(key), nontrivial=False)
         ctx.guard("C05.own." + short(path), own)
     # remaining entry points: wiring only adds conversions without panic sites
+    fac_entries = fac if "fac" in dir() else None
+
     def entries():
         for path, n in ((FIVE, 5), (SIX, 6), (SEVEN, 7)):
             for meth in ("hand_rank", "hand_rank_validated", "hand_rank_value", "hand_rank_value_validated"):
@@ -2409,6 +2560,16 @@ def check_C05(ctx):
                     if not okk:
                         from .base import decide_site
                         okk = decide_site(ctx, o)[0] is True
+                    if not okk and o in sm_in.obligations and o not in inside:
+                        # a site behind the validity gate, in the summary where validity is spelled out
+                        pass
+                    if not okk:
+                        twin = next((q for q in sm_in.obligations if (q.fn, q.kind, q.line) == (o.fn, o.kind, o.line)), None)
+                        if twin is not None:
+                            # (only the 52 cards per slot when the site lies behind `is_valid()` on its path)
+                            from .base import flat_and as _fa
+                            gated = any(c[0] == "call" and c[1] == "fn:" + k_valid_ for pc_ in o.pc for c in _fa(pc_, []))
+                            okk = slotwise_discharge(ctx, twin, fac_entries, masks_upto(5), valid_only=gated)
                     rep.ob("C05.panic-site.entry", "%s::%s %s %s L%s" % (short(path), meth, short(o.fn), o.kind, o.line), okk, "panic site %s in %s" % (o.kind, short(o.fn)), pdb.where(o.fn))
             ctx.guard("V.are_unique." + short(path), premise_unique, ctx, path, n, "C05.are_unique", False)
     ctx.guard("C05.entries", entries)
